@@ -151,7 +151,9 @@ func c26Listing() (map[string]string, map[string]os.FileMode) {
 			modes[rel] = info.Mode().Perm()
 		default:
 			b, _ := os.ReadFile(path)
-			desc[rel] = "f:" + c26TokOf(b)
+			hh := fnv.New64a()
+			hh.Write(b)
+			desc[rel] = fmt.Sprintf("f:%s#%x", c26TokOf(b), hh.Sum64()) // the hash tells two unknown contents of equal length apart
 			modes[rel] = info.Mode().Perm()
 		}
 		return nil
@@ -294,7 +296,7 @@ func c26Run(line string) string {
 		desc, _ := c26Listing()
 		var hits []string
 		for p, d := range desc {
-			if d == "f:"+tok {
+			if strings.HasPrefix(d, "f:"+tok+"#") {
 				hits = append(hits, p)
 			}
 		}
